@@ -15,7 +15,7 @@
     [perday_reporter] / [period_reporter] enumerate the reporters of the two
     sentences. *)
 From HP Require Import Base.Bytes Base.Utf8 Base.Num Model.Scanner Model.Parser Model.Elements Model.Dates
-  Model.Tree Model.Writer Model.Reporters Model.Cli Spec.ComposeSpec
+  Model.Tree Model.Writer Model.Regex Model.Reporters Model.Cli Spec.ComposeSpec
   Proofs.ComposeWriter Proofs.ComposeWalk Proofs.ComposeAssoc Proofs.ComposePerDay Proofs.ComposePeriod
   Proofs.ComposeAdd Proofs.ComposeTree Proofs.ComposeTreePaths Proofs.ComposeRun.
 From HP Require Import Spec.TreeShared.
@@ -300,7 +300,7 @@ Print Assumptions run_db_log_report.
 
 (** the reporters [reg] and [balance] choose are of the two kinds *)
 Theorem reg_reporter_kind : forall (NM : Num) (c : rconfig) (d : list (bytes * elements NM)),
-  rc_single_food c = [] \/ plain_pattern (rc_single_food c) = true ->
+  rc_single_food c = [] \/ parse_regex (rc_single_food c) <> ReUnmodelled ->
   perday_reporter NM (reg_reporter NM c d) \/ period_reporter NM (reg_reporter NM c d).
 Proof. exact ComposeRun.reg_reporter_kind. Qed.
 Print Assumptions reg_reporter_kind.
